@@ -235,8 +235,10 @@ Fixpoint rd_many {A} (rd : bytes -> Z -> ures A) (elt : Z) (n : nat) (have : Z) 
 
 (* the loop bound is the announced length, but the loop stops at the first
    error, which comes at the latest when the input is exhausted: announcing more
-   items than there are bytes left cannot succeed *)
-Definition loop_count (n : Z) (inp : bytes) : nat := Z.to_nat (Z.min n (zlen inp + 1)).
+   items than there are bytes left cannot succeed.  (The length of the input is
+   only looked at for large announcements: it costs a pass over the input.) *)
+Definition loop_count (n : Z) (inp : bytes) : nat :=
+  Z.to_nat (if n <=? 4096 then n else Z.min n (zlen inp + 1)).
 
 (* breader.readCode, given the reader for one constant *)
 Definition rd_code (rdk : bytes -> Z -> ures cst) (inp : bytes) (b : Z) : ures cst :=
